@@ -182,7 +182,10 @@ def run_case(ctx, case):
         elif kind == "standalone" and case["seed"] % 3 == 1:
             # built unsubscribed, then subscribed by hand
             cls2 = MakespanReward if order else IdleTimeReward
-            twin_reward = cls2(run.d, subscribe=False) if case["seed"] % 4 == 2 else None
+            try:
+                twin_reward = cls2(run.d, subscribe=False) if case["seed"] % 4 == 2 else None
+            except Exception:
+                twin_reward = None
             mk = MakespanReward(run.d, subscribe=False); idle = IdleTimeReward(run.d, subscribe=False)
             if case["seed"] % 4 == 1:
                 # ... by putting them at the head of the public `subscribers` list of a dispatcher
@@ -194,11 +197,17 @@ def run_case(ctx, case):
             else:
                 for ob in ((mk, idle) if order else (idle, mk)):
                     run.d.subscribe(ob)
-            if case["seed"] % 4 == 2:
+            if twin_reward is not None:
                 # a second, equally fresh reward observer of the same class comes and goes again
                 # before the first dispatch: the one that stays keeps receiving
-                run.d.subscribe(twin_reward)
-                run.d.unsubscribe(twin_reward)
+                try:
+                    run.d.subscribe(twin_reward)
+                except Exception:
+                    # the library may refuse a second observer of a singleton type on this path as
+                    # well; then there is nothing to take away again
+                    ctx.count("second_reward_observer_refused_by_the_library")
+                else:
+                    run.d.unsubscribe(twin_reward)
                 if not any(x is mk for x in run.d.subscribers) or not any(x is idle for x in run.d.subscribers) \
                         or any(x is twin_reward for x in run.d.subscribers):
                     ctx.violation("c13_unsubscribing_a_twin_removed_another_reward_observer",
